@@ -45,7 +45,8 @@ with cf.ThreadPoolExecutor(NW) as ex:
     for lst in ex.map(runBucket, range(NW)):
         for prop, idx, suite, withp, without in lst:
             resA[(prop, idx)] = (suite, withp, without)
-sh("cd /verif/checker && go build -o ../bin/pprofcheck .")
+if not os.environ.get("NOBUILD"):
+    sh("cd /verif/checker && go build -o ../bin/pprofcheck .")
 for prop, idx, pkg, sd in specs:
     suite, withp, without = resA[(prop, idx)]
     print(f"=== {prop} #{idx} ({sd})  suite with patch: {suite} | demo with patch: {withp} | demo without: {without}")
